@@ -1,9 +1,10 @@
 #!/usr/bin/env python3
-"""seedall.py [tier] -- regression over every kept seeded change: apply seeded/<dir>/patch.diff to /repo, run the
+"""seedall.py [tier] [prefix] -- regression over every kept seeded change: apply seeded/<dir>/patch.diff to /repo, run the
 check of its property, undo, record the outcome in seeded/<dir>/meta.json (key "checks") and print a table.
 Never commits anything to /repo; refuses to start when /repo is not clean."""
 import os, sys, json, subprocess, time, re
 tier = sys.argv[1] if len(sys.argv) > 1 else "quick"
+only = sys.argv[2] if len(sys.argv) > 2 else ""   # optional prefix filter, e.g. C13
 ENV = dict(os.environ, GOFLAGS="-mod=mod", GOPROXY="off", GOSUMDB="off", GOTOOLCHAIN="local")
 def sh(cmd, cwd=None, timeout=3600):
     p = subprocess.run(cmd, cwd=cwd, env=ENV, shell=True, stdout=subprocess.PIPE, stderr=subprocess.STDOUT, text=True, timeout=timeout)
@@ -13,7 +14,7 @@ rows = []
 for d in sorted(os.listdir(root)):
     mp = os.path.join(root, d, "meta.json")
     pp = os.path.join(root, d, "patch.diff")
-    if not (os.path.exists(mp) and os.path.exists(pp)):
+    if not (os.path.exists(mp) and os.path.exists(pp)) or not d.startswith(only):
         continue
     meta = json.load(open(mp))
     if not meta.get("confirmed"):
